@@ -46,17 +46,20 @@ StateOf(st) ==
 
 Cur == TraceLog[l]
 
-\* one silent step of goroutine g (all of the call's sections when Atomic)
+\* the silent steps of goroutine g (all of the call's sections when Atomic); a set, because the
+\* exact expiry instant is accepted either way (LRUCacheOps!StepGSet)
 Step1(c, g) ==
-  LET c1 == StepG(kind, c, g, now, Big, Fix)
-  IN IF Atomic /\ c1.pc[g].st = "mid" THEN StepG(kind, c1, g, now, Big, Fix) ELSE c1
+  LET S1 == StepGSet(kind, c, g, now, Big, Fix)
+  IN IF Atomic
+     THEN UNION {IF c1.pc[g].st = "mid" THEN StepGSet(kind, c1, g, now, Big, Fix) ELSE {c1} : c1 \in S1}
+     ELSE S1
 
 \* closure under silent steps, worklist form: Done is closed except for the steps of New
 RECURSIVE Close(_, _)
 Close(Done, New) ==
   IF New = {} THEN Done
   ELSE LET D2 == Done \cup New
-           Nx == UNION {{Step1(c, g) : g \in {h \in Procs : CanStep(c, h)}} : c \in New}
+           Nx == UNION {UNION {Step1(c, g) : g \in {h \in Procs : CanStep(c, h)}} : c \in New}
        IN Close(D2, Nx \ D2)
 Closure(F) == Close({}, F)
 
